@@ -258,9 +258,13 @@ func handleSINTERSTORE(params internal.HandlerFuncParams) ([]byte, error) {
 
 	var sets []*Set
 
-	for key, exists := range keyExists {
-		if !exists {
-			return []byte(":0\r\n"), err
+	// A key that does not exist is an empty set and makes the intersection empty.
+	// Every key that does exist must hold a set, whatever the other keys hold.
+	empty := false
+	for _, key := range keys.ReadKeys {
+		if !keyExists[key] {
+			empty = true
+			continue
 		}
 		set, ok := params.GetValues(params.Context, []string{key})[key].(*Set)
 		if !ok {
@@ -270,7 +274,10 @@ func handleSINTERSTORE(params internal.HandlerFuncParams) ([]byte, error) {
 		sets = append(sets, set)
 	}
 
-	intersect, _ := Intersection(0, sets...)
+	intersect := NewSet([]string{})
+	if !empty {
+		intersect, _ = Intersection(0, sets...)
+	}
 	destination := keys.WriteKeys[0]
 
 	if err = params.SetValues(params.Context, map[string]interface{}{destination: intersect}); err != nil {
